@@ -92,11 +92,18 @@ class ModelClient(Actor):
         self.send_raw_dgram(data, sport, src_ip)
         return qid
 
-    def redeliver(self, back=1, new_id=False, src_ip=None, sport=None, swapcase=False):
-        """Re-send one of the recent query datagrams (what an impatient / load-balanced relay does)."""
+    def redeliver(self, back=1, new_id=False, src_ip=None, sport=None, swapcase=False, retype=None):
+        """Re-send one of the recent query datagrams (what an impatient / load-balanced relay does).  retype: the same name
+        asked again with another record type (a resolver that probes a name with several types)."""
         if len(self.dgrams) < back:
             return None
         d = self.dgrams[-back]
+        if retype is not None:
+            try:
+                labels, off = proto.read_name(d, 12)
+                d = d[:off] + struct.pack(">H", retype) + d[off + 2:]
+            except (proto.ParseError, ValueError):
+                pass
         if swapcase:
             try:
                 labels, off = proto.read_name(d, 12)
